@@ -1,6 +1,8 @@
 package storagesc
 
 import (
+	"encoding/json"
+
 	"0chain.net/chaincore/transaction"
 	"0chain.net/core/common"
 	"0chain.net/smartcontract/stakepool"
@@ -24,7 +26,7 @@ func vC12Liabilities(w *vWorld, allocID string) (writePool, challenge, rewards u
 	if cp, err := w.ssc.getChallengePool(allocID, w.balances); err == nil {
 		challenge = uint64(cp.Balance)
 	}
-	for _, id := range vWBlobbers[:2] {
+	for _, id := range vWBlobbers[:3] {
 		if sp, err := getStakePool(spenum.Blobber, id, w.balances); err == nil {
 			rewards += uint64(sp.Reward)
 			for _, p := range sp.Pools {
@@ -65,7 +67,7 @@ func vC12Check(w *vWorld, allocID, step string) {
 // operations, each one of: upload to blobber b (1 GB or 64 KB), delete from blobber b, a passed
 // challenge of blobber b, a failed-then-passed challenge of blobber b (penalty), cancel.
 func vC12Run(k int, prop string) {
-	w := vWNew(2, vWClient, 0)
+	w := vWNew(3, vWClient, 0)
 	allocID := w.vWAlloc(vWClient, "pk-client", 100*x10, 0)
 	vsp := newStakePool()
 	vsp.Settings = stakepool.Settings{DelegateWallet: "dv", MaxNumDelegates: 10, ServiceChargeRatio: 0.1}
@@ -103,13 +105,13 @@ func vC12Run(k int, prop string) {
 	now := vWNow + 2000
 	closed := false
 	for i := 0; i < k; i++ {
-		nops := 5
+		nops := 6
 		if prop == "C09" {
-			nops = 7 // also deposits: write-pool lock, read-pool lock
+			nops = 8 // also deposits: write-pool lock, read-pool lock
 		}
 		op := sym.Choice("op", 0, nops)
 		bi := sym.Choice("blobber", 0, 1)
-		step := []string{"upload", "small upload", "delete", "challenge passed", "challenge failed then passed", "cancel", "write pool lock", "read pool lock"}[op]
+		step := []string{"upload", "small upload", "delete", "challenge passed", "challenge failed then passed", "cancel", "replace blobber", "write pool lock", "read pool lock"}[op]
 		t := &transaction.Transaction{}
 		t.ClientID = vWClient
 		t.ToClientID = ADDRESS
@@ -126,10 +128,30 @@ func vC12Run(k int, prop string) {
 		if op == 5 {
 			_, operr = w.ssc.cancelAllocationRequest(t, []byte(`{"allocation_id":"`+allocID+`"}`), balances)
 		} else if op == 6 {
+			// the allocation's blobber bi (healthy, or killed beforehand) is replaced by blobber 3
+			if sym.Bool("replacedBlobberWasKilled") {
+				step = "replace killed blobber"
+				sn, err := getBlobber(vWBlobbers[bi], balances)
+				if err != nil {
+					panic(err)
+				}
+				_ = sn.mustUpdateBase(func(b *storageNodeBase) error {
+					b.Kill()
+					return nil
+				})
+				if _, err := balances.InsertTrieNode(sn.GetKey(), sn); err != nil {
+					panic(err)
+				}
+			}
+			req := &updateAllocationRequest{ID: allocID, OwnerID: vWClient, AddBlobberId: vWBlobbers[2], RemoveBlobberId: vWBlobbers[bi]}
+			input, _ := json.Marshal(req)
+			t.Value = 10 * x10
+			_, operr = w.ssc.updateAllocationRequest(t, input, balances)
+		} else if op == 7 {
 			t.Value = currency.Coin(sym.U64("lockValue"))
 			sym.Assume(t.Value < 1<<40)
 			_, operr = w.ssc.writePoolLock(t, []byte(`{"allocation_id":"`+allocID+`"}`), balances)
-		} else if op == 7 {
+		} else if op == 8 {
 			t.Value = currency.Coin(sym.U64("lockValue"))
 			sym.Assume(t.Value < 1<<40)
 			_, operr = w.ssc.readPoolLock(t, []byte(`{}`), balances)
@@ -194,7 +216,7 @@ func vC12Run(k int, prop string) {
 		wpA, chA, rwA, open := vC12Liabilities(w, allocID)
 		if prop == "C09" {
 			sym.Assert(wpA+chA+rwA+transfersOut <= wpB+chB+rwB+transfersIn, step+": what the contract owes (write, challenge and read pools, unpaid rewards) grows by no more than the tokens the transaction moved into its wallet")
-			if op >= 6 {
+			if op >= 7 {
 				sym.Assert(transfersIn == uint64(t.Value), step+": a lock deposits exactly the transaction value")
 			}
 		}
@@ -206,7 +228,7 @@ func vC12Run(k int, prop string) {
 			}
 			continue
 		}
-		if prop == "C12" && op < 6 {
+		if prop == "C12" && op <= 6 {
 			vC12Check(w, allocID, step)
 		}
 	}
